@@ -186,6 +186,15 @@ func (sr *seqRunner) observeAux(x *Ctx, coll string, suffix string) []AuxObs {
 	like := "'%" + suffix + "'"
 	add("q-all", x.queryRows(c, `SELECT json_quote(id) AS id, json_quote(hex(body)) AS body, json_quote(hex(xattrs)) AS xattrs FROM $_keyspace WHERE id LIKE `+like+` AND id NOT LIKE '~%' ORDER BY id`, absKey))
 	add("q-v", x.queryRows(c, `SELECT json_quote(id) AS id FROM $_keyspace WHERE id LIKE `+like+` AND id NOT LIKE '~%' AND json_valid(body) AND body->>'v' = 'J1' ORDER BY id`, absKey))
+	// the same filter without the guard: a body that is not JSON makes SQLite refuse the row. The query may fail for it - loudly;
+	// what it may not do is return some of the rows and no error (a refusal is logged as the guarded query's result)
+	{
+		ao := x.queryRows(c, `SELECT json_quote(id) AS id FROM $_keyspace WHERE id LIKE `+like+` AND id NOT LIKE '~%' AND body->>'v' = 'J1' ORDER BY id`, absKey)
+		if ao.Err != "" {
+			ao = x.queryRows(c, `SELECT json_quote(id) AS id FROM $_keyspace WHERE id LIKE `+like+` AND id NOT LIKE '~%' AND json_valid(body) AND body->>'v' = 'J1' ORDER BY id`, absKey)
+		}
+		add("q-vraw", ao)
+	}
 	add("q-s", x.queryRows(c, `SELECT json_quote(id) AS id FROM $_keyspace WHERE id LIKE `+like+` AND id NOT LIKE '~%' AND xattrs->>'$._s.t' = 'x1' ORDER BY id`, absKey))
 	// the documents that have no xattrs at all (a document whose last xattr was removed is one of them)
 	add("q-noxa", x.queryRows(c, `SELECT json_quote(id) AS id FROM $_keyspace WHERE id LIKE `+like+` AND id NOT LIKE '~%' AND xattrs IS NULL ORDER BY id`, absKey))
